@@ -47,6 +47,15 @@ def _build(env, files):
 
         _untraced_sql_layer()
         lazy._trie = DataIndexTrie()
+    elif cube("backend", "memory") == "sqlite-named":
+        # a named in-memory database that survives close() while `KEEP` holds a connection: the index can be committed, closed and re-opened
+        import sqlite3
+        import uuid
+
+        _untraced_sql_layer()
+        uri = f"file:vf17_{uuid.uuid4().hex}?mode=memory&cache=shared"
+        KEEP[:] = [sqlite3.connect(uri), uri]
+        lazy = DataIndex.open(uri)
     for idx in (lazy, full):
         idx.storage_map.add_cache(ObjectStorage((), cache))
         if remote is not None:
@@ -79,6 +88,63 @@ def _build(env, files):
         if not k.startswith(pre):
             lazy[tuple(k.split("/"))] = file_entry(k)
     return lazy, full, cache
+
+
+KEEP = []
+
+
+def h_reopen(o1: int, k1: int, dk: int, p1: bool, p2: bool, p3: bool) -> bool:
+    """
+    pre: 0 <= o1 <= 6 and 0 <= k1 <= 7 and 0 <= dk <= 3
+    post: _
+    """
+    # SQLite-backed index: an access loads the directory, one entry below it is then removed, the index is committed, closed and
+    # re-opened: it must still agree with the explicit index that had the same entry removed (loading is idempotent across reopen)
+    files = _shape(p1, p2, p3)
+    if files is None:
+        return True
+    env = make_env()
+    try:
+        with NoTracing():
+            lazy, full, cache = _build(env, files)
+            afs_lazy = DataFileSystem(index=lazy, skip_instance_cache=True)
+            afs_full = DataFileSystem(index=full, skip_instance_cache=True)
+            lazy.commit()
+        op = pick(o1, 0, 6)
+        key = KEYS[pick(k1, 0, NK)]
+        a = _observe(lazy, afs_lazy, op, key)
+        b = _observe(full, afs_full, op, key)
+        if a != b:
+            violation("lazy-index-observation-differs-from-expanded", ([[op, "/".join(key)]], a, b))
+        below = sorted(tuple(k.split("/")) for k in files if k.startswith(LAZY + "/"))
+        victim = below[pick(dk, 0, len(below) - 1)]
+        try:
+            lazy.load()  # whatever the access left unloaded is loaded before the edit (an edit below an unloaded directory is out of scope)
+            del lazy[victim]
+            del full[victim]
+            lazy.commit()
+            lazy.close()
+            again = DataIndex.open(KEEP[1])
+            again.storage_map = lazy.storage_map
+            got = sorted((k, _proj(e)) for k, e in again.iteritems())
+        except HarnessGap:
+            raise
+        except Exception as e:  # noqa: BLE001
+            violation("reopen-raised", f"{type(e).__name__}: {e}")
+            return True
+        want = sorted((k, _proj(e)) for k, e in full.iteritems())
+        if got != want:
+            violation("reopened-index-differs-from-expanded", ("/".join(victim), [k for k, _ in got], [k for k, _ in want]))
+        with NoTracing():
+            again.close()
+        journal({"op": op, "key": "/".join(key), "victim": "/".join(victim), "files": sorted(files)}, nontrivial=True)
+        return True
+    finally:
+        with NoTracing():
+            if KEEP:
+                KEEP[0].close()
+                del KEEP[:]
+        env.close()
 
 
 def _untraced_sql_layer():
